@@ -62,11 +62,12 @@ func (r *RelationTuple) ToProto() *rts.RelationTuple {
 
 func (r *RelationTuple) FromProto(proto *rts.RelationTuple) *RelationTuple {
 	r = &RelationTuple{
-		Namespace: proto.Namespace,
-		Object:    proto.Object,
-		Relation:  proto.Relation,
+		Namespace: proto.GetNamespace(),
+		Object:    proto.GetObject(),
+		Relation:  proto.GetRelation(),
 	}
-	switch subject := proto.Subject.Ref.(type) {
+	// the subject is optional on the wire; a tuple without one fails validation
+	switch subject := proto.GetSubject().GetRef().(type) {
 	case *rts.Subject_Id:
 		r.SubjectID = pointerx.Ptr(subject.Id)
 	case *rts.Subject_Set:
